@@ -374,7 +374,7 @@ Fixpoint fv (x : ident) (e : expr) : bool :=
   match e with
   | EConst _ => false
   | EVar y => String.eqb x y
-  | ELam ps body => negb (memb x ps) && fv x body
+  | ELam ps rest body => negb (memb x (params ps rest)) && fv x body
   | EApp f args => (fix go (es : list expr) : bool :=
                       match es with [] => false | a :: r => fv x a || go r end) args || fv x f
   | EIf c t e' => fv x c || fv x t || fv x e'
@@ -425,10 +425,13 @@ Section Compile.
                  | Some (Cap j) => READCAPTURED j
                  | None => PUSH x
                  end]
-    | ELam ps body =>
-        let fs := captured ce ps body in
-        [MKCLOSURE (List.length ps) false (map (capsrc_of ce) fs)
-                   (compile (body_cenv ps fs) (List.length ps) tco body ++ [POPPURE])]
+    | ELam ps rest body =>
+        (* a rest parameter is one more slot: arity = |ps| + 1, PASS 1 (code_gen.rs:452) *)
+        let xs := params ps rest in
+        let fs := captured ce xs body in
+        [MKCLOSURE (List.length xs) (match rest with Some _ => true | None => false end)
+                   (map (capsrc_of ce) fs)
+                   (compile (body_cenv xs fs) (List.length xs) tco body ++ [POPPURE])]
     | EApp f args =>
         (fix go (d : nat) (es : list expr) : list instr :=
            match es with [] => [] | a :: r => compile ce d false a ++ go (S d) r end) d args
@@ -513,22 +516,32 @@ Section RunProgram.
 End RunProgram.
 
 Open Scope string_scope.
-Fixpoint canon_mval (fuel : nat) (v : mval) : string :=
-  match fuel with
-  | O => "<deep>"
-  | S f =>
-    match v with
-    | MVoid => "#<void>"
-    | MList l => "(" ++ Lang.join " " (map (canon_mval f) l) ++ ")"
-    | MPrim _ | MClo _ _ _ _ => "#<procedure>"
-    | _ => canon_atom (mval_atom v) "?"
-    end
+Fixpoint canon_mval (v : mval) : string :=
+  match v with
+  | MVoid => "#<void>"
+  | MList l => "(" ++ Lang.join " " (map canon_mval l) ++ ")"
+  | MPrim _ | MClo _ _ _ _ => "#<procedure>"
+  | _ => canon_atom (mval_atom v) "?"
   end.
 
 Definition render_run (r : run_result) : string :=
   match r with
-  | RDone v _ => "OK " ++ canon_mval 100 v
+  | RDone v _ => "OK " ++ canon_mval v
   | RErr k => "ERR " ++ errk_name k
   | RStuck => "STUCK"
   | RFuel => "FUEL"
+  end.
+
+(* ------------------------------------------------------------------ one Lang.v evaluation unit through both sides
+   (the value of the unit = the value of its last expression form; "UNSUPPORTED" outside the fragment) *)
+Definition unit_render_core (fuel : nat) (forms : list Lang.expr) : string :=
+  match split_unit forms with
+  | Some (ds, ms) => render_result (run_program fuel ds (seq_of ms))
+  | None => "UNSUPPORTED"
+  end.
+
+Definition unit_render_vm (limit : nat) (tco opt : bool) (fuel : nat) (forms : list Lang.expr) : string :=
+  match split_unit forms with
+  | Some (ds, ms) => render_run (vm_program limit tco opt fuel ds (seq_of ms))
+  | None => "UNSUPPORTED"
   end.
